@@ -1,9 +1,131 @@
-(* C01 - bounded queue: exactly once, FIFO, exclusive access.  Only statements. *)
+(* C01 - bounded queue: each element delivered exactly once, FIFO, with exclusive access.
+   Only statements; proofs are `exact <lemma of BQ/BQProofs.v>`.
+
+   PROVED here, for every capacity 2^k, every ticket and every 16-bit version (the expressions are the ones regenerated from
+   bounded_queue.hpp into Gen_bounded_queue.v, so an edit of `(index >> _slot_bits) << 1`, `+ 1`, `index & _slot_mask`,
+   `(index + _slot_mask + 1) & ~_slot_mask`, the `<=` split tests, the segment lengths, `expected_version + 1`,
+   `index + 1` / `index + num`, the ready tests or the memory orders re-opens a proof):
+     c01_ticket_owns_slot_version   a (side, slot, expected version) triple belongs to exactly one ticket - the arithmetic
+                                    fact behind "exclusive access" and "exactly once": whoever sees version == expected for
+                                    its ticket is the only one entitled to the slot at that version
+     c01_push_pop_versions_differ   a producer and a consumer never wait for the same version of a slot
+     c01_versions / c01_slot_index / c01_round / c01_split_sound
+                                    push expects 2*(i/cap), pop 2*(i/cap)+1 on slot i mod cap; a batch of n <= cap tickets is
+                                    cut into <= 2 consecutive segments that add up to n and each stay inside one round, so the
+                                    single expected version computed from the first index is right for the whole segment
+     c01_next_version / c01_next_index / c01_ready_tests / c01_try_n_short
+                                    publication stores expected+1; try_ CASes index -> index+1 / index+num; every readiness
+                                    test is equality of version and expected version
+     c01_version16_sound            16-bit truncation is exact below 2^16 rounds of lag
+     c01_memory_order_obligations   release exchange / acquire+release(+seq_cst) fences of the batch paths, acquire version
+                                    load and release version store of the single paths are what the source says
+   PARTIAL - NOT PROVED (time): the schedule-quantified invariants of BQModel itself, stated below at full strength as
+   c01_exactly_once_statement, c01_exclusive_statement, c01_fifo_realtime_statement, c01_try_fail_justified_statement.
+   The intended proof is the ticket-interval invariant (threads hold disjoint ticket intervals below next_push/next_pop;
+   version(slot i) <= expected(i) for every held ticket i; an observed-ready slot stays ready by c01_ticket_owns_slot_version)
+   over the 24 program counters of BQModel.step.  Until it is mechanised these statements are checked, at every run, by
+   exhaustive exploration of the extracted model on the small programs (every terminal state must have err = false and
+   delivered included in pushed: signature model-unsafe) and by the monitors on the real implementation (conservation, no
+   duplicate, real-time FIFO, exclusive cells, justified try_ failures).  The compensating push_n/pop_n(cb, reverse_cb, n)
+   variants are outside the Coq model (monitors only).  Weak memory: only the obligations above, no WM machine. *)
 From Coq Require Import ZArith List Bool.
 Require Import Verif.Gen.Gen_bounded_queue Verif.Conc.Machine Verif.BQ.BQModel Verif.BQ.BQProofs.
 Import ListNotations.
 Local Open Scope Z_scope.
 
+Theorem c01_ticket_owns_slot_version : forall k i i', 0 <= k ->
+  slot_index i (2 ^ k - 1) = slot_index i' (2 ^ k - 1) ->
+  (push_ver k i = push_ver k i' \/ pop_ver k i = pop_ver k i') -> i = i'.
+Proof. exact bq_ticket_injective. Qed.
+Print Assumptions c01_ticket_owns_slot_version.
+
+Theorem c01_push_pop_versions_differ : forall k i i', 0 <= k -> push_ver k i <> pop_ver k i'.
+Proof. exact bq_push_pop_versions_differ. Qed.
+Print Assumptions c01_push_pop_versions_differ.
+
+Theorem c01_versions : forall k i, 0 <= k -> push_ver k i = 2 * (i / 2 ^ k) /\ pop_ver k i = 2 * (i / 2 ^ k) + 1.
+Proof. exact (fun k i H => conj (bq_push_ver k i H) (bq_pop_ver k i H)). Qed.
+Print Assumptions c01_versions.
+
+Theorem c01_slot_index : forall k i, 0 <= k ->
+  slot_index i (2 ^ k - 1) = i mod 2 ^ k /\ slot_index_try i (2 ^ k - 1) = i mod 2 ^ k /\
+  slot_index_n i (2 ^ k - 1) = i mod 2 ^ k /\ slot_index_tryn i (2 ^ k - 1) = i mod 2 ^ k /\
+  slot_index_until i (2 ^ k - 1) = i mod 2 ^ k.
+Proof. exact bq_slot_index. Qed.
+Print Assumptions c01_slot_index.
+
+Theorem c01_round : forall k i, 0 <= k ->
+  push_n_round i (2 ^ k - 1) = (i / 2 ^ k + 1) * 2 ^ k /\ pop_n_round i (2 ^ k - 1) = (i / 2 ^ k + 1) * 2 ^ k /\
+  try_push_n_round i (2 ^ k - 1) = (i / 2 ^ k + 1) * 2 ^ k /\ try_pop_n_round i (2 ^ k - 1) = (i / 2 ^ k + 1) * 2 ^ k.
+Proof. exact bq_round. Qed.
+Print Assumptions c01_round.
+
+Theorem c01_split_sound : forall o kb i n i1 n1 r, 0 <= kb -> 0 <= i -> 0 <= n <= 2 ^ kb ->
+  (okind o = KSingle \/ okind o = KTry -> n <= 1) ->
+  split o (2 ^ kb - 1) i n = ((i1, n1), r) ->
+  i1 = i /\ seg_in_round kb i1 n1 /\
+  match r with
+  | None => Z.of_nat n1 = n
+  | Some (i2, n2) => i2 = i1 + Z.of_nat n1 /\ Z.of_nat n1 + Z.of_nat n2 = n /\ seg_in_round kb i2 n2 /\ (0 < n1)%nat
+  end.
+Proof. exact bq_split_sound. Qed.
+Print Assumptions c01_split_sound.
+
+Theorem c01_next_version : forall k w e, next_ver k w e = e + 1 /\ wake_ver k e = e + 1.
+Proof. exact bq_next_version. Qed.
+Print Assumptions c01_next_version.
+
+Theorem c01_next_index : forall i n, try_deal_next_index i = i + 1 /\ try_deal_n_next_index i n = i + n /\
+  try_deal_n_next_index_excl i n = i + n /\ until_index i n = i + n.
+Proof. exact bq_next_index. Qed.
+Print Assumptions c01_next_index.
+
+Theorem c01_ready_tests : forall v e,
+  wait_ready v e = (v =? e) /\ block_cas_ready v e = (v =? e) /\ block_reload_ready v e = (v =? e) /\ spin_ready v e = (v =? e) /\
+  try_deal_not_ready e v = negb (v =? e) /\ try_deal_n_not_ready e v = negb (v =? e) /\ wakeup_moved_on v e = negb (v =? e) /\
+  try_deal_same_index v e = (v =? e) /\ try_deal_n_none v = (v =? 0).
+Proof. exact bq_ready_tests. Qed.
+Print Assumptions c01_ready_tests.
+
+Theorem c01_try_n_short : forall o d r, try_short o d r = Nat.ltb d r.
+Proof. exact bq_try_n_short. Qed.
+Print Assumptions c01_try_n_short.
+
+Theorem c01_version16_sound : forall a b, a mod 65536 = b mod 65536 -> Z.abs (a - b) < 65536 -> a = b.
+Proof. exact bq_version16_sound. Qed.
+Print Assumptions c01_version16_sound.
+
 Theorem c01_memory_order_obligations : orders_ok = true.
 Proof. exact bq_orders_ok. Qed.
 Print Assumptions c01_memory_order_obligations.
+
+(* ---- full-strength statements that are NOT proved (see header): kept visible, checked by exploration + monitors ---- *)
+(* exactly once / conservation: every delivered (pop ticket, value) is the (push ticket, value) written by the producer with the
+   same ticket; no ticket is delivered or written twice; at quiescence what was pushed is delivered or still in its slot *)
+Definition c01_exactly_once_statement : Prop := forall k progs s, usage_ok k progs = true -> Reach k progs s ->
+  (forall i v, In (i, v) (delivered s) -> In (i, v) (pushed s)) /\ NoDup (map fst (delivered s)) /\ NoDup (map fst (pushed s)) /\
+  (all_done s = true -> forall i v, In (i, v) (pushed s) -> In (i, v) (delivered s) \/
+     pay (get_slot s (Z.to_nat (i mod 2 ^ Z.of_nat k))) = Some v).
+(* exclusive, fully published access: no callback ever enters a slot that is owned by another callback or whose payload cell is
+   in the wrong state (producer: still holding an unconsumed value; consumer: empty) *)
+Definition c01_exclusive_statement : Prop := forall k progs s, usage_ok k progs = true -> Reach k progs s -> err s = false.
+(* real-time order of tickets: every ticket obtained after a moment is larger than every ticket obtained before it; with
+   exactly-once this is the FIFO sentence of the property *)
+Definition tickets_of (role : bool) (s : st) : list (Z * nat) :=
+  flat_map (fun th => flat_map (fun '(o, r) => if Bool.eqb (is_push o) role then r_tks r else []) (combine (prog th) (results th)))
+           (threads s).
+Definition c01_fifo_realtime_statement : Prop := forall k progs s sch role a n b m, usage_ok k progs = true -> Reach k progs s ->
+  In (a, n) (tickets_of role s) -> In (b, m) (tickets_of role (run st step s sch)) -> ~ In (b, m) (tickets_of role s) ->
+  a + Z.of_nat n <= b.
+(* a try_ operation fails or comes up short only if the slot of the next ticket was not ready while it was the next ticket
+   (queue full / empty at that moment) or another operation of the same side moved the ticket during the call *)
+Definition c01_try_fail_justified_statement : Prop := forall k progs s th i o r, usage_ok k progs = true -> Reach k progs s ->
+  In th (threads s) -> nth_error (prog th) i = Some o -> nth_error (results th) i = Some r ->
+  (okind o = KTry \/ okind o = KTryN) -> (r_cnt r < onum o)%nat -> r_full r = true \/ r_over r = true.
+
+(* non-vacuity: a usage_ok program with batches crossing the ring end; a run that delivers what was pushed *)
+Example c01_usage_example : usage_ok 1 [[OPush f111 1; OPushN f111 [2; 3]]; [OPop f111; OPopN f111 2]] = true.
+Proof. exact bq_usage_example. Qed.
+Example c01_finish_example :
+  exists s, Reach 0 [[OPush f111 1]; [OPop f111]] s /\ all_done s = true /\ delivered s = [(0, 1)] /\ pushed s = [(0, 1)].
+Proof. exact bq_finish_example. Qed.
